@@ -19,7 +19,7 @@ func init() {
 	core.Register(&core.Prop{
 		ID:    "C11",
 		Level: "exploration",
-		Rule: "EXHAUSTIVE grid: collection length 0..7 x offset {absent,0..8} x limit {absent,0..8} x reversed x {for, tablerow cols absent/1..4} (quick: full for length<=5, a PRNG 1/2 sample for lengths 6..7), each over 8 collection representations ([]any, []int, [N]int, range literal, range with variable endpoints, yaml.MapSlice, Drop of array, and maps as a multiset), break/continue at every iteration index (bare and inside if); all range endpoint pairs in -3..6; cycle round-robin per loop and group for loop lengths 0..7; negative offset/limit only against invariants; PRNG nestings (depth<=3) of loops with conditionals, cycles and assigns against the reference model. The rendered per-iteration trace [item|index|index0|rindex|rindex0|length|first|last] is compared with the model. Non-trivial = at least one item selected or the else branch rendered; distinct = distinct (template, bindings).",
+		Rule: "EXHAUSTIVE grid: collection length 0..7 x offset {absent,0..8} x limit {absent,0..8} x reversed x {for, tablerow cols absent/1..4} (quick: full for length<=5, a PRNG 1/2 sample for lengths 6..7), each over 8 collection representations ([]any, []int, [N]int, range literal, range with variable endpoints, yaml.MapSlice, Drop of array, and maps as a multiset), break/continue at every iteration index (bare and inside if, and inside application-defined blocks registered with RegisterBlock); all range endpoint pairs in -3..6; cycle round-robin per loop and group for loop lengths 0..7; negative offset/limit only against invariants; PRNG nestings (depth<=3) of loops with conditionals, cycles and assigns against the reference model. The rendered per-iteration trace [item|index|index0|rindex|rindex0|length|first|last] is compared with the model. Non-trivial = at least one item selected or the else branch rendered; distinct = distinct (template, bindings).",
 		Exhaustive: func(tier string) bool { return tier == "thorough" },
 		Assumptions: []string{
 			"tablerow output is compared after stripping the attributes of <tr> and <td> (only the row/cell structure is stated)",
@@ -328,6 +328,59 @@ func runC11(c *core.Ctx) {
 		if !res.OK() || strings.Join(got, ",") != strings.Join(want, ",") {
 			c.Violate("mapslice|"+resClass(res), "a loop over an ordered map did not visit each [key, value] pair exactly once (or its else branch when empty)",
 				map[string]any{"source": src, "entries": n, "observed": res.Brief()})
+		}
+	}
+	// ---- break / continue executed inside an application-defined block (RegisterBlock) within the loop body ------
+	// (the block hands its output over as one string, so an iteration that is interrupted inside it contributes nothing)
+	ce := liquid.NewEngine()
+	RegisterCustom(ce)
+	for L := 0; L <= 6; L++ {
+		for at := 1; at <= L+1; at++ {
+			for bc := 0; bc < 2; bc++ {
+				for form := 0; form < 3; form++ {
+					idx++
+					if !c.Mine(idx) {
+						continue
+					}
+					kw := []string{"break", "continue"}[bc]
+					inner := fmt.Sprintf("{{ i }}{%% if forloop.index == %d %%}{%% %s %%}{%% endif %%}|", at, kw)
+					var src string
+					switch form {
+					case 0:
+						src = "{% for i in a %}{% xwrap w %}" + inner + "{% endxwrap %}{% endfor %}"
+					case 1:
+						src = "{% for i in a %}{% xtwice %}" + inner + "{% endxtwice %}{% endfor %}"
+					default:
+						src = "{% for i in a %}{% xwhen true %}{% xwrap {{ i }} %}" + inner + "{% endxwrap %}{% endxwhen %}{% endfor %}"
+					}
+					if !c.Begin(fmt.Sprintf("custom-block-%s: %s L=%d", kw, src, L)) {
+						continue
+					}
+					arr := make([]any, L)
+					want := ""
+					for k := 1; k <= L; k++ {
+						arr[k-1] = k * 11
+						if k == at {
+							if bc == 0 {
+								break
+							}
+							continue
+						}
+						body := fmt.Sprintf("%d|", k*11)
+						switch form {
+						case 0:
+							want += "<w>" + body + "</>"
+						case 1:
+							want += body + body
+						default:
+							want += fmt.Sprintf("<%d>%s</>", k*11, body)
+						}
+					}
+					expectOut(c, ce, src, map[string]any{"a": arr}, want, "custom-block-"+kw, "break/continue executed inside an application-defined block ends/skips the iteration of the enclosing loop", nil)
+					c.Obs("custom_block_interrupt_cases", 1)
+					c.Distinct("cbi", src, fmt.Sprint(L))
+				}
+			}
 		}
 	}
 	// ---- cycle ---------------------------------------------------------------------
